@@ -92,7 +92,8 @@ def run_scratch(seeded, props):
             print('patch does not apply:\n' + o)
             return 2
         harness = os.path.join(base, 'harness')
-        shutil.copytree(os.path.join(ROOT, 'harness'), harness, ignore=shutil.ignore_patterns('target'))
+        # the build output goes along (when there is one): only the crate and the harness itself are rebuilt
+        shutil.copytree(os.path.join(ROOT, 'harness'), harness, ignore=shutil.ignore_patterns('incremental'))
         cargo = open(os.path.join(harness, 'Cargo.toml')).read().replace('path = "/repo"', 'path = "%s"' % repo)
         open(os.path.join(harness, 'Cargo.toml'), 'w').write(cargo)
         env = dict(os.environ, VERIF_HARNESS_DIR=harness, VERIF_OUT_DIR=os.path.join(base, 'out'),
